@@ -198,6 +198,57 @@ def _gz(_):
     return st
 
 
+def _constant(_):
+    """heuristic Constant through estimate_importances_minibatches (the task itself cannot finish a Constant run: it removes a checkpoint file that such a run never writes):
+    the returned frame must still be the per-pair median (0.0) over the batches consumed, for exactly the reference batches"""
+    import os
+    from mc import harness
+    from mc.common import scratch_dir, rm_scratch
+    from outrank import core_ranking as cr
+    st = Stats()
+    d = scratch_dir('c08c')
+    try:
+        for kinds in ('gggg', 'ggbgg', 'g', 'gbg'):
+            text = render(tuple(kinds), 'few')
+            for mb in (1, 2):
+                path = os.path.join(d, 'data.csv')
+                with open(path, 'w') as f:
+                    f.write(text)
+                rec = []
+                orig = cr.compute_batch_ranking
+
+                def rec_cbr(rows, *a, **k):
+                    rec.append([list(r) for r in rows])
+                    return orig(rows, *a, **k)
+
+                cr.compute_batch_ranking = rec_cbr
+                args = harness.make_args(data_source='csv-raw', minibatch_size=mb, subsampling=1, heuristic='Constant')
+                try:
+                    with harness.in_dir(d):
+                        harness.reset_state()
+                        ok, r = safe(cr.estimate_importances_minibatches, path, HEADER.split(','), None, set(), args=args, data_encoding='utf-8', cpu_pool=harness.InlinePool(), delimiter=',', logger=harness.RecLogger())
+                finally:
+                    cr.compute_batch_ranking = orig
+                st.count('evaluations')
+                st.count('constant_runs')
+                st.count('traces_validated')
+                case = {'kind': 'constant', 'lines': kinds, 'minibatch_size': mb}
+                if not ok:
+                    st.violation(case, f'streaming function raised {r}', {'kind': 'exception', 'family': 'constant'})
+                    continue
+                header, ref_b, _ = pipeline.reference_batches(text, mb, 1)
+                if rec != ref_b:
+                    st.violation(case, f'batches {rec} differ from the reference {ref_b}', {'kind': 'batches', 'family': 'constant'})
+                    continue
+                g = r[1]
+                if ref_b and (g is None or set(zip(g.FeatureA, g.FeatureB)) != {(c, 'label') for c in header} or any(float(v) != 0.0 for v in g.Score)):
+                    st.violation(case, f'returned frame {None if g is None else g.values.tolist()} is not the 0.0 median of every (column, label) pair over {len(ref_b)} batches', {'kind': 'returned_frame', 'family': 'constant'})
+    finally:
+        rm_scratch(d)
+    st.count('states', 1)
+    return st
+
+
 def _edge(_):
     st = Stats()
     for text in (HEADER + '\n', HEADER, HEADER + '\n\n', HEADER + '\n' + good_row(1) + '\n'):
@@ -236,6 +287,8 @@ def _dispatch(item):
         return _seqdiff(job)
     if k == 'gz':
         return _gz(job)
+    if k == 'constant':
+        return _constant(job)
     return {'small': _small, 'tail': _tail, 'edge': _edge}[k](job)
 
 
@@ -249,6 +302,7 @@ def run(ctx):
     jobs.append(('edge', None))
     jobs.append(('seqdiff', None))
     jobs.append(('gz', None))
+    jobs.append(('constant', None))
     for st in pmap(_dispatch, jobs):
         ctx.stats.merge(st)
     ctx.extra['k_max'] = kmax
@@ -260,6 +314,8 @@ def run(ctx):
 def eval_case(case):
     if case['kind'] == 'seqdiff':
         return seqdiff.replay(seq_call, SEQ_FILES, case['seq'])
+    if case['kind'] == 'constant':
+        return [v['what'] for v in _constant(None).violations if v['case']['lines'] == case['lines']]
     if case['kind'] == 'gz':
         return [v['what'] for v in _gz(None).violations if v['case']['lines'] == case['lines']]
     if case['kind'] == 'small':
